@@ -46,8 +46,10 @@ func (f *ComputeApplicableMethods) Call(s *slip.Scope, args slip.List, depth int
 top:
 	switch ta := a0.(type) {
 	case slip.Symbol:
-		a0 = slip.FindFunc(string(ta))
-		goto top
+		if fi := slip.FindFunc(string(ta)); fi != nil {
+			a0 = fi
+			goto top
+		}
 	case *slip.FuncInfo:
 		aux, _ = ta.Aux.(*Aux)
 	}
